@@ -39,6 +39,15 @@ func (l List) FriendlyName() string {
 	return "list"
 }
 
+func (l List) Validate() error {
+	if c, ok := l.Elem.(Validatable); ok {
+		if err := c.Validate(); err != nil {
+			return fmt.Errorf("Elem: %T: %w", l.Elem, err)
+		}
+	}
+	return nil
+}
+
 func (l List) Copy() Constraint {
 	var elem Constraint
 	if l.Elem != nil {
